@@ -1,5 +1,5 @@
 """E1/E2 checks on the table-driven accessors: C01 C02 C03 C04 C05 C11 C12 C17."""
-import os, subprocess, sys, time
+import os, re, subprocess, sys, time
 from . import core
 
 RULES = {
@@ -83,6 +83,23 @@ def alias_contexts(res, bdir):
                     'count': 1, 'case': 'C12:9:0:0:0:0:0:0', 'detail': '%s = %s with %s alone, %s after %s' % (m, alone.get(m), L, v, H), 'tag': 'include context'}
     res.counters['cases'] = res.counters.get('cases', 0) + n
     res.counters['transitions'] = res.counters.get('transitions', 0) + n
+    # the packed legacy overlays in the language modes a consumer may compile with (strict ISO modes define
+    # __STRICT_ANSI__; an attribute hidden behind such a test silently changes the layout)
+    spec = load_spec()
+    for ls in spec['legacy_structs']:
+        for mode in ('-std=gnu99', '-std=c99', '-std=c11', '-std=gnu11'):
+            src = os.path.join(d, 'ls_%s_%s.c' % (re.sub(r'\W', '_', ls['struct']), mode.strip('-=').replace('=', '')))
+            with open(src, 'w') as f:
+                f.write('#include <stdio.h>\n#include <stddef.h>\n#include "%s"\nint main(void){ printf("%%d %%d %%d\\n", (int)sizeof(%s), (int)offsetof(%s, %s), (int)__alignof__(%s)); return 0; }\n'
+                        % (ls['header'], ls['struct'], ls['struct'], ls['payload_member'], ls['struct']))
+            r = core.sh(['gcc', mode, '-w', '-I' + inc, src, '-o', src[:-2]])
+            res.counters['cases'] += 1
+            if r.returncode != 0:
+                continue        # a header that does not compile in that mode is C20's subject
+            got = core.sh([src[:-2]]).stdout.split()
+            want = [str(ls['size']), str(ls['payload_offset']), '1']
+            if got != want:
+                res.viol[('C12', '%s layout in a %s unit' % (ls['struct'], mode))] = {'count': 1, 'case': 'C12:9:0:0:0:0:0:0', 'detail': 'sizeof/offsetof(payload)/alignof = %s, expected %s' % (got, want), 'tag': 'language mode'}
     return n
 
 
